@@ -42,7 +42,7 @@ CLAIMS = {
  "C01": ("PARTIAL. A Gallina lexer (maximal munch over the token rules of CEL.g4), literal decoders and a fuelled recursive-descent parser "
          "with the visitor's checks and macro expansion form compile : source -> program | reject | out-of-fuel. Proved: the parser's fuel 16*(tokens+2) suffices on EVERY token list "
          "(C01_fuel_sufficient: one induction on the fuel over all 20 parser functions with a rank per function, giving also that every successful "
-         "sub-parse strictly consumes input), hence compile is total with exactly two outcomes, program or rejection (C01_total); pos_for (positions of macro errors) exists for every offset in the source and never points beyond it; characters no "
+         "sub-parse strictly consumes input), the lexer's fuel likewise (every token or skipped blank consumes a character), hence compile is total with exactly two outcomes, program or rejection (C01_total), and a rejection is never an artefact of fuel (C01_reject_genuine: the lexer's own steps lead to a non-empty remainder where no token starts, or the token list is not one expression); pos_for (positions of macro errors) exists for every offset in the source and never points beyond it; characters no "
          "token rule starts with, and unterminated one-quote literals, do not lex. CEL.g4's parser rules are stated as a derivation relation over tokens (Model/Grammar.v) and the parser is proved SOUND against it "
          "(C01_accept_sound: whatever compile accepts is derivable from start : expr EOF, all tokens consumed); every derivable token list has each kind "
          "of bracket balanced, the brackets properly nested (a well-nested word over the three bracket kinds) and ends in a closing token (C01_accepted_shape, mutual induction over the derivation), so unbalanced, dangling or empty texts are "
